@@ -574,9 +574,12 @@ class Projection:
                 curval = curvals[k]
                 deriva = dcurvals[k]
                 fuk = deriva.inner(curval)
+                speed2 = deriva.inner(deriva)
                 dfuk = ddcurvals[k].inner(curval)
-                dfuk += deriva.inner(deriva)
-                dfuk = dfuk if abs(dfuk) > 1e-6 else 1e-6
+                dfuk += speed2
+                # The smallest slope is relative to the speed of the curve
+                tiny = speed2 / 1000000 if speed2 else 1e-6
+                dfuk = dfuk if abs(dfuk) > tiny else tiny
                 newu = uk - fuk / dfuk
                 usample[k] = min(one, max(newu, zero))
             usample = list(set(usample))
